@@ -32,6 +32,33 @@ def run(rep, work, rng, tier):
         cid = 'p%d' % i
         lines += ['save 0 %s_a.c3d' % cid, 'fsum %s_a.c3d' % cid, 'snap 0', 'save 0 %s_b.c3d' % cid, 'fsum %s_b.c3d' % cid, 'snap 0', 'save 0 %s_c.c3d' % cid, 'fsum %s_c.c3d' % cid]
         cases.append((cid, lines)); kinds[kind] = kinds.get(kind, 0) + 1
+    # RAGGED frames: frame() looks at the channels of sub-frame 0 only, so later sub-frames may hold fewer (or more) channels;
+    # whatever is written for such a frame is a function of the object
+    for i in range(max(6, n // 15)):
+        chans = [b'c%d' % k for k in range(rng.choice([2, 3, 4]))]; nsub = rng.choice([2, 3, 4])
+        lines = ['new 0'] + ['analog 0 ' + harness.hx(x) for x in chans]
+        npt = rng.choice([0, 1, 2]); pts = [b'p%d' % k for k in range(npt)]
+        lines += ['point 0 ' + harness.hx(x) for x in pts]
+        lines += ['P.new x52415445 x', 'P.set F 0 1 42c80000', 'param 0 x504f494e54', 'P.new x52415445 x', 'P.set F 0 1 %s' % harness.fhex(harness.f2bits(100.0 * nsub)), 'param 0 x414e414c4f47']
+        for _f in range(rng.choice([1, 2, 3])):
+            lit = apihist.rand_lit(rng, pts, chans, nsub)
+            for sfi in range(1, nsub):
+                r = rng.random()
+                if r < 0.5: lit.subs[sfi] = lit.subs[sfi][:rng.randrange(len(chans))]          # fewer channels than sub-frame 0
+                elif r < 0.65: lit.subs[sfi] = lit.subs[sfi] + [(b'extra', apihist.rf(rng))]      # more
+            lines.append('frame 0 - ' + lit.text())
+        cid = 'rg%d' % i
+        lines += ['snap 0', 'save 0 %s_a.c3d' % cid, 'fsum %s_a.c3d' % cid, 'snap 0', 'save 0 %s_b.c3d' % cid, 'fsum %s_b.c3d' % cid, 'snap 0', 'save 0 %s_c.c3d' % cid, 'fsum %s_c.c3d' % cid]
+        cases.append((cid, lines)); kinds['ragged-sub-frames'] = kinds.get('ragged-sub-frames', 0) + 1
+    # the destination ALREADY EXISTS and is longer (or shorter) than what is written now: the file afterwards is the new image
+    # and nothing else — same bytes as on a fresh path
+    for i in range(max(6, n // 15)):
+        big = apihist.conforming_history(rng, max_frames=20, snap=False, with_cols=False); small = apihist.conforming_history(rng, max_frames=rng.choice([0, 1]), snap=False, with_cols=False)
+        cid = 'ow%d' % i
+        lb = list(big.lines); ls = [l.replace('new 0', 'new 1').replace(' 0 ', ' 1 ', 1) if l.split(' ')[0] in ('new', 'point', 'analog', 'param', 'frame', 'pointcol', 'analogcol', 'snap', 'lock', 'unlock') else l for l in small.lines]
+        lines = lb + ls + ['save 0 %s_x.c3d' % cid, 'fsum %s_x.c3d' % cid, 'save 1 %s_x.c3d' % cid, 'fsum %s_x.c3d' % cid, 'save 1 %s_fresh.c3d' % cid, 'fsum %s_fresh.c3d' % cid,
+                           'save 0 %s_fresh.c3d' % cid, 'fsum %s_fresh.c3d' % cid, 'save 0 %s_y.c3d' % cid, 'fsum %s_y.c3d' % cid]
+        cases.append((cid, lines)); kinds['destination-exists-with-other-content'] = kinds.get('destination-exists-with-other-content', 0) + 1
     # a frame count beyond the 16-bit header words (one extension call: the frames in between stay unfilled)
     for k, nf in enumerate([65534, 65535, 65536, 70000]):
         cid = 'big%d' % k
@@ -53,6 +80,11 @@ def run(rep, work, rng, tier):
         script = [l for l in lines if not l.startswith('fsum')]
         if len(snaps) >= 2 and any(s != snaps[-3 if len(snaps) >= 3 else 0] for s in snaps[-2:]):
             if rep.violation('oracle', 'saving changed the object being saved', script=script, signature='save-mutates'): bad += 1
+        if cid.startswith('ow'):
+            # sums: [big@x, small@x (over the longer file), small@fresh, big@fresh (over the shorter file), big@y]
+            if len(sums) == 5 and (sums[1] != sums[2] or sums[0] != sums[3] or sums[0] != sums[4]):
+                if rep.violation('oracle', 'what a save leaves on disk depends on what the destination held before: %s' % sums, script=script, signature='save-depends-on-destination'): bad += 1
+            continue
         if len(sums) >= 2 and len(set(sums)) != 1:
             if rep.violation('oracle', 'saving the same object again wrote different bytes: %s' % sums, script=script, signature='save-not-repeatable'): bad += 1
     # definedness: memcheck on the plain build, the whole case in one process
